@@ -41,6 +41,13 @@ func SendAccountDebitRequest(
 
 	msg := diam.NewRequest(charging_code.ABMF_CreditControl, charging_code.Re_interface, dict.Default)
 
+	// an answer that arrived after its own request had timed out must not be taken for this one
+	select {
+	case <-ue.AcctChan:
+		logger.AcctLog.Warnf("Discard stale CCA")
+	default:
+	}
+
 	err = msg.Marshal(ccr)
 	if err != nil {
 		return nil, fmt.Errorf("Marshal CCR Failed: %s\n", err)
@@ -69,6 +76,12 @@ func HandleCCA(abmfChan chan *diam.Message) diam.HandlerFunc {
 	return func(c diam.Conn, m *diam.Message) {
 		logger.AcctLog.Tracef("Received CCA from %s", c.RemoteAddr())
 
-		abmfChan <- m
+		// never block the connection's serving goroutine (it holds the read lock of the state machine
+		// mux): if nobody can take the answer any more it is late and is discarded
+		select {
+		case abmfChan <- m:
+		default:
+			logger.AcctLog.Warnf("Discard CCA from %s: no request is waiting for it", c.RemoteAddr())
+		}
 	}
 }
